@@ -304,6 +304,10 @@ def grid(tier):
                 for dz in (None, 5.0):
                     for phi in ((0,) if not thorough else (0, 135)):
                         out.append((res, lambda s, d, radius=radius, sweep=sweep, dz=dz, phi=phi: arc_case(s, d, radius, sweep, dz, phi)))
+            # very short arcs: the target is closer to the start than a tenth of the resolution, yet it is not a full turn
+            for sweep in (0.6, 0.05):
+                out.append((res, lambda s, d, radius=radius, sweep=sweep: arc_case(s, d, radius, sweep, None, 0)))
+            out.append((res, lambda s, d, radius=radius: arc_radius_case(s, d, radius, 0.002, 30)))
             for ratio in (0.3, 0.9, 1.0):
                 for sign in (1, -1):
                     out.append((res, lambda s, d, radius=radius, ratio=ratio, sign=sign: arc_radius_case(s, d, sign * radius, ratio, 30)))
